@@ -14,7 +14,7 @@ for id in $ids; do
   if ! git -C /repo apply "/verif/$d/patch.diff" 2>/dev/null; then
     echo "{\"id\":\"$id\",\"applies\":false}" > "$d/check.json"; echo "$id: patch does not apply"; continue
   fi
-  out=$(./check "$pid" --tier quick 2>&1 | grep -v WARNING); code=$?
+  out=$(VERIF_EVIDENCE_DIR=/tmp/seed_evidence ./check "$pid" --tier quick 2>&1 | grep -v WARNING); code=$?
   # exit code of ./check is lost through the pipe: recompute from the output
   if echo "$out" | grep -q "^VIOLATION"; then verdict=violation; elif echo "$out" | grep -q "^CHECKER-ERROR"; then verdict=error; elif echo "$out" | grep -q "^UNDECIDED"; then verdict=undecided; else verdict=held; fi
   git -C /repo checkout -- .
